@@ -192,6 +192,30 @@ func run(t *testing.T, typ uint16) {
 			}
 			check(t, s, v, ft, "field-replaced", honest)
 		}
+		// very long fields: the authenticator input is type || nonce || context || key id as carried, whatever its length (a
+		// 16-bit length written somewhere inside an evaluation wraps at 65536 input bytes); with the honest authenticator
+		// (must be refused) and with the authenticator recomputed through circl (must be accepted)
+		if gen.Uniform(t, 2, "giantField") == 0 {
+			n := gen.Pick(t, []int{65437, 65438, 65439, 65470, 65535, 65536, 70000}, "giantLen")
+			giant := make([]byte, n)
+			for i := range giant {
+				giant[i] = byte(i*11 + n)
+			}
+			gt := tok
+			switch gen.Uniform(t, 3, "giantWhich") {
+			case 0:
+				gt.Nonce = giant
+			case 1:
+				gt.Context = giant
+			case 2:
+				gt.KeyID = giant
+			}
+			check(t, s, v, gt, "giant-field", honest)
+			in := append([]byte{byte(typ >> 8), byte(typ)}, gt.Nonce...)
+			in = append(append(in, gt.Context...), gt.KeyID...)
+			gt.Authenticator = gen.VOPRFOutput(suiteOf[typ], sess.OKey, in)
+			check(t, s, v, gt, "giant-field-authenticator-recomputed", honest)
+		}
 		s.Sample(func() any { return map[string]any{"type": typ, "token": rt.Hex(honest)} })
 	})
 }
